@@ -239,7 +239,7 @@ func TestC12(t *testing.T) {
 	}
 	excludeCollision := ev.Known("C12/linear-release/same-height-same-end-same-coins")
 
-	search(t, rec, "schedule", budget(2500, 80000), 0, func(rt *rapid.T) {
+	search(t, rec, "schedule", budget(2500, 640000), 0, func(rt *rapid.T) {
 		w := newC12World(c)
 		durs := []time.Duration{time.Microsecond, 7 * time.Microsecond, time.Second, 90 * time.Second, time.Hour, 24 * time.Hour, 30 * 24 * time.Hour, 3650 * 24 * time.Hour}
 		incs := []time.Duration{0, time.Microsecond, 3 * time.Microsecond, time.Second, 6 * time.Second, 17 * time.Minute, time.Hour, 5 * time.Hour, 24 * time.Hour, 9 * 24 * time.Hour, 40 * 24 * time.Hour, 400 * 24 * time.Hour}
